@@ -58,10 +58,12 @@ class DoctestConfig(dict):
 
     def _populate_from_cli(self, ns):
         from xdoctest.directive import parse_directive_optstr
+        from xdoctest.directive import _split_opstr
         directive_optstr = ns['options']
         default_runtime_state = {}
         if directive_optstr:
-            for optpart in directive_optstr.split(','):
+            # (commas inside REQUIRES(...) separate its conditions)
+            for optpart in _split_opstr(directive_optstr):
                 directive = parse_directive_optstr(optpart)
                 if directive is None:
                     raise Exception(
@@ -119,7 +121,9 @@ class DoctestConfig(dict):
                                 default=self['reportchoice'],
                                 help=('Choose another output format for diffs on xdoctest failure'))),
             # used to build default_runtime_state
-            (['--options'], dict(type=str_lower, default=None, dest='options',
+            # (not lower-cased: directive names are case insensitive anyway,
+            # REQUIRES arguments like env:NAME or --Flag are not)
+            (['--options'], dict(type=str, default=None, dest='options',
                                  help='Default directive flags for doctests')),
             (['--global-exec'], dict(type=str, default=None, dest='global_exec',
                                      help='Custom Python code to execute before every test')),
